@@ -5,6 +5,10 @@ inductive Kind | Standard | Integrated | SubAddress deriving DecidableEq, Repr
 inductive Denom | Monero | Millinero | Micronero | Nanonero | Piconero deriving DecidableEq, Repr
 inductive RctTy | Null | Full | Simple | Bulletproof | Bulletproof2 | Clsag | BulletproofPlus deriving DecidableEq, Repr
 
+inductive TxInV | Gen | ToKey deriving DecidableEq, Repr
+inductive TargetV | ToKey | ToTaggedKey deriving DecidableEq, Repr
+inductive SubFieldV | TxPublicKey | Nonce | Padding | MergeMining | AdditionalPublickKey | MysteriousMinerGate deriving DecidableEq, Repr
+
 def Net.all : List Net := [.Mainnet, .Testnet, .Stagenet]
 def Kind.all : List Kind := [.Standard, .Integrated, .SubAddress]
 def Denom.all : List Denom := [.Monero, .Millinero, .Micronero, .Nanonero, .Piconero]
